@@ -29,6 +29,17 @@ class ToolError(Exception):
     pass
 
 
+class HarnessCrash(Exception):
+    """The process running the real code died from a signal raised by that code
+    (SIGSEGV, SIGBUS, SIGABRT, SIGILL, SIGFPE): data about the code under test."""
+
+    def __init__(self, args, rc, tail):
+        Exception.__init__(self, "harness %s killed by signal %d" % (args[0], -rc))
+        self.hargs = [str(a) for a in args]
+        self.rc = rc
+        self.tail = tail
+
+
 def log(*a):
     print(*a, flush=True)
 
@@ -66,6 +77,8 @@ def workdir(name):
 def run_harness(args, timeout=1800):
     r = subprocess.run([BIN] + [str(a) for a in args], stdout=subprocess.PIPE,
                        stderr=subprocess.PIPE, text=True, timeout=timeout)
+    if r.returncode in (-11, -7, -6, -4, -8):
+        raise HarnessCrash(args, r.returncode, r.stderr[-1500:])
     if r.returncode != 0:
         raise ToolError("harness %s failed (%d): %s" % (args[0], r.returncode, r.stderr[-2000:]))
     last = [l for l in r.stdout.splitlines() if l.strip()]
